@@ -8,6 +8,7 @@ use std::sync::*;
 #[cfg(desync_verif)]
 use vsched::sync::*;
 use std::collections::vec_deque::*;
+use std::mem;
 #[cfg(not(desync_verif))]
 use std::panic;
 #[cfg(desync_verif)]
@@ -121,6 +122,7 @@ impl SchedulerCore {
     ///
     pub (super) fn reschedule_queue(&self, queue: &Arc<JobQueue>, core: Arc<SchedulerCore>) {
         let mut already_scheduled = false;
+        let mut wake_futures      = vec![];
 
         let reschedule = {
             let mut core = queue.core.lock().expect("JobQueue core lock");
@@ -144,6 +146,10 @@ impl SchedulerCore {
                     if core.queue.len() > 0 {
                         // Need to schedule the queue after this event
                         core.state = QueueState::Pending;
+
+                        // Tasks whose futures were waiting for whoever was running this queue are polled again: if there's no thread
+                        // for the queue, one of them has to run it
+                        wake_futures = mem::take(&mut core.wake_futures);
                         true
                     } else {
                         // Queue is empty and can go back to idle
@@ -177,6 +183,8 @@ impl SchedulerCore {
         } else if already_scheduled {
             self.schedule_thread(core);
         }
+
+        wake_futures.into_iter().for_each(|waker| waker.wake());
     }
 
     ///
